@@ -59,7 +59,11 @@ TypesVerdict ==
     LET act == ToSet(Tr.active)
         bad == {ty \in ToSet(Tr.types) :
                   ~\E a \in Produces(ty) : a.rules \subseteq act /\ (a.html => Tr.html = 1) /\ (a.idef => Tr.idef = 1)}
-    IN IF bad = {} THEN "ok" ELSE "not_produced_by_enabled_rule"
+    IN IF bad # {} THEN "not_produced_by_enabled_rule"
+       \* a configuration reached by another public route of switching (configure on a used instance, a
+       \* reset_rules block that is left again) is the configuration: exactly the same rules are in force
+       ELSE IF Tr.want # <<>> /\ act # ToSet(Tr.want) THEN "switch_route_left_different_rules_in_force"
+       ELSE "ok"
 
 Has(doc, w) == \E k \in 1..(Len(doc) - Len(w) + 1) : SubSeq(doc, k, k + Len(w) - 1) = w
 
